@@ -112,13 +112,21 @@ fn get_interleaved_bytes_and_offsets(
     let mut bytes_out = Vec::with_capacity(bytes_len);
     let mut offsets_out = Vec::with_capacity(num_elements + 1);
     let mut offset = size_of::<u32>();
+    // A length that reaches past the end of the bytes (corrupted or truncated data) is an error, not a panic
+    let invalid_length = || InvalidBytesLengthError::new(bytes.len(), bytes.len() + 1);
     for _element in 0..num_elements {
-        let length =
-            u32::from_le_bytes(bytes[offset..offset + size_of::<u32>()].try_into().unwrap());
+        let length_bytes = bytes
+            .get(offset..offset + size_of::<u32>())
+            .ok_or_else(invalid_length)?;
+        let length = u32::from_le_bytes(length_bytes.try_into().unwrap());
         offset += size_of::<u32>();
         offsets_out.push(bytes_out.len());
         if length != 0 {
-            bytes_out.extend_from_slice(&bytes[offset..offset + length as usize]);
+            let element = offset
+                .checked_add(length as usize)
+                .and_then(|end| bytes.get(offset..end))
+                .ok_or_else(invalid_length)?;
+            bytes_out.extend_from_slice(element);
             offset += length as usize;
         }
     }
